@@ -97,7 +97,8 @@ package clusters
 //@   ensures [cancels_only_own] forall f ref :: {cancelled[f]} cancelled[f] && !old(cancelled[f]) ==> stop && old(smhas(MC, box(toLower(name)))) && f == old(delEntry.cancel)
 //@   ensures [cancel_monotone] forall f ref :: {cancelled[f]} old(cancelled[f]) ==> cancelled[f]
 
-//@ func (*ClusterInfo).Stop props C15
+//@ func (*ClusterInfo).Stop props C15, C16
+//@   requires [recv] c != nil
 //@   modifies cancelled
 //@   ensures [cancelled] c.cancel != nil ==> cancelled[c.cancel]
 //@   ensures [only_own] forall f ref :: {cancelled[f]} cancelled[f] && !old(cancelled[f]) ==> f == c.cancel
